@@ -14,6 +14,7 @@ import (
 	"encoding/json"
 	"errors"
 	"fmt"
+	"math/bits"
 	"runtime"
 	"strings"
 	"testing"
@@ -283,6 +284,32 @@ func inject(r *report.Run, l *sim.Lock, st *step, fork int) *report.Failure {
 		if err == nil && oc.polls >= k { // (a poll that only exists on the validating path is never reached here)
 			return report.Failf("cancel/swallowed:"+site, "%s %s step at slot %d reports success although poll %d of %d (in %s) observed an ended context (%s)", forkName, st.kind, st.slot, k, n, site, whyName)
 		}
+	}
+	if st.kind == "slots" {
+		// targets that are 2^40 … 2^64-1 slots away: the call cannot complete, the context ends at its 1st..3rd
+		// poll, so anything but an error is "success for work that was not done"
+		ls, _ := l.Lib.Slot()
+		cur := uint64(ls)
+		for i, d := range []uint64{1 << 40, 1 << 62, 1<<63 - 1, 1 << 63, 1<<63 + 5, ^uint64(0) - cur} {
+			far := *st
+			far.slot = cur + d
+			k := 1 + i%3
+			fc := &countingCtx{Context: context.Background(), failFrom: k}
+			post, err, panicked := runStep(l, l.LibSpec, fc, &far)
+			r.Eval(1)
+			if panicked {
+				return report.Failf("cancel/panic", "%s: ProcessSlots from slot %d to slot %d, cancellation at poll %d: %v", forkName, cur, far.slot, k, err)
+			}
+			if err == nil {
+				at := uint64(0)
+				if post != nil {
+					s, _ := post.Slot()
+					at = uint64(s)
+				}
+				return report.Failf("cancel/success-far-target", "%s: ProcessSlots from slot %d to slot %d (2^%d.. slots ahead) with a context that ends at its poll %d reports success; the state is at slot %d, the context was polled %d times", forkName, cur, far.slot, bits.Len64(d)-1, k, at, fc.polls)
+			}
+		}
+		r.Hit("cancel:target-up-to-2^64-slots-ahead")
 	}
 	r.ClassN("cancellation-injections", int64(len(ks)))
 	r.Class(fmt.Sprintf("steps:%s:%s", st.kind, forkName))
@@ -681,7 +708,7 @@ func TestCheck(t *testing.T) {
 	if r.Replay != "" {
 		return
 	}
-	r.Mandatory("cancel-reason:canceled", "cancel-reason:deadline-exceeded", "cancel:phase0", "cancel:altair", "cancel:bellatrix", "cancel:capella", "cancel:deneb", "epoch-processing-step", "step-with>=5-polls-over>=2-sites",
+	r.Mandatory("cancel:target-up-to-2^64-slots-ahead", "cancel-reason:canceled", "cancel-reason:deadline-exceeded", "cancel:phase0", "cancel:altair", "cancel:bellatrix", "cancel:capella", "cancel:deneb", "epoch-processing-step", "step-with>=5-polls-over>=2-sites",
 		"engine-fault:bellatrix", "engine-fault:capella", "engine-fault:deneb", "engine-error-with-verdict-flag-set:bellatrix", "engine-error-with-verdict-flag-set:capella", "engine-error-with-verdict-flag-set:deneb", "engine-all-valid:bellatrix", "engine-all-valid:capella", "engine-all-valid:deneb", "versioned-hashes-nonempty")
 	opts := sim.GenOpts{CustomPct: 90, AllowMainnet: false, MaxSlots: 36, BlockPct: 65, MaxSkip: 2, OpsBias: 50, MaxN: 40}
 	r.Mandatory("large-registry:epoch-boundary-step", "large-registry:phase0", "large-registry:altair")
